@@ -971,7 +971,7 @@ class Interp:
             for f in cands:
                 a0 = type_base(f.args[0][1]).split('::')[-1] if f.args else ''
                 rt = type_base(f.ret).split('::')[-1]
-                if a0 == sb or (rt == sb and not f.args) or (a0 != sb and sb in f.ret and trait and trait.startswith(('From', 'Decimal256Helper'))):
+                if a0 == sb or rt == sb or (rt == 'Self') or (a0 != sb and sb in f.ret and trait and trait.startswith(('From', 'Decimal256Helper'))):
                     exact.append(f)
             if trait and trait.startswith('From<'):
                 src = type_base(trait[5:-1]).split('::')[-1]
